@@ -72,10 +72,27 @@ fn compare(m: &mut Mon, format: &str, tname: &str, before: &[f64], after: Result
     }
 }
 
-fn rt_json<V: Serialize + DeserializeOwned + PartialEq>(v: &V, flat: impl Fn(&V) -> Vec<f64>) -> Result<(Vec<f64>, bool), String> {
+thread_local! {
+    /// the previously decoded value of every type: the place the next value of that type is decoded INTO
+    static PREV: std::cell::RefCell<std::collections::HashMap<std::any::TypeId, Box<dyn std::any::Any>>> = std::cell::RefCell::new(std::collections::HashMap::new());
+}
+
+fn rt_json<V: Serialize + DeserializeOwned + PartialEq + 'static>(v: &V, flat: impl Fn(&V) -> Vec<f64>) -> Result<(Vec<f64>, bool), String> {
     match guard(|| -> Result<(Vec<f64>, bool), String> {
         let s = serde_json::to_string(v).map_err(|e| format!("serialize: {}", e))?;
         let w: V = serde_json::from_str(&s).map_err(|e| format!("deserialize: {}", e))?;
+        // reload into an existing value of the same type (the previous one decoded on this thread; it may hold more or
+        // fewer pieces): what `Deserialize::deserialize_in_place` and serde's in-place Vec<V> impl do
+        let prev = PREV.with(|p| p.borrow_mut().remove(&std::any::TypeId::of::<V>()));
+        if let Some(mut place) = prev.and_then(|b| b.downcast::<V>().ok()) {
+            let mut de = serde_json::Deserializer::from_str(&s);
+            serde::Deserialize::deserialize_in_place(&mut de, &mut *place).map_err(|e| format!("deserialize in place: {}", e))?;
+            if flat(&place).iter().map(|x| x.to_bits()).ne(flat(&w).iter().map(|x| x.to_bits())) {
+                return Err("deserialize in place (into an existing value) gives a different value than a fresh deserialize".to_string());
+            }
+        }
+        let keep: V = serde_json::from_str(&s).map_err(|e| format!("deserialize: {}", e))?;
+        PREV.with(|p| p.borrow_mut().insert(std::any::TypeId::of::<V>(), Box::new(keep)));
         // the same text through an io::Read source (a file, a socket): no borrowing from the input is possible there
         let w2: V = serde_json::from_reader(s.as_bytes()).map_err(|e| format!("deserialize from a reader: {}", e))?;
         if flat(&w2).iter().map(|x| x.to_bits()).ne(flat(&w).iter().map(|x| x.to_bits())) {
@@ -148,7 +165,7 @@ pub trait SerdeYes {
     fn json_rt(&self) -> Rt;
     fn cbor_rt(&self) -> Rt;
 }
-impl<'a, V: Serialize + DeserializeOwned + PartialEq> SerdeYes for Wrap<'a, V> {
+impl<'a, V: Serialize + DeserializeOwned + PartialEq + 'static> SerdeYes for Wrap<'a, V> {
     fn json_rt(&self) -> Rt {
         Some(rt_json(self.0, |w| (self.1)(w)))
     }
